@@ -11,6 +11,9 @@ Q3_SenderOps == [s1 |-> <<"send", "try">>]
 Q3_FlusherOps == [f1 |-> "cbPanic", f2 |-> "flushInf", f3 |-> "cbPanic"]
 \* fourth quick config: the async tokio flush and a callback that blocks the receiver
 Q4_SenderOps == [s1 |-> <<"send", "send", "send">>, s2 |-> <<"weCb">>]
+\* sixth quick config: the async tokio::send racing with plain sends
+Q6_SenderOps == [s1 |-> <<"send", "send">>, s2 |-> <<"blockTokio">>]
+Q6_FlusherOps == [f1 |-> "flush0"]
 Q4_FlusherOps == [f1 |-> "flushTokio", f2 |-> "cbPark"]
 \* liveness with the newer actor kinds
 L2_SenderOps == [s1 |-> <<"send", "send">>, s2 |-> <<"weCb">>]
